@@ -28,10 +28,7 @@ TMPL = os.path.join(TMPL_DIR, "target", "release", "pvtmpl")
 CONFIGS = {
     "lib-default": (["--workspace", "--lib"], "lib targets of both workspace crates, default features (core, extras, clpfd, clpz)"),
     "all-targets": (["--workspace", "--all-targets"], "lib + unit tests + examples, default features"),
-    "core-only": (["-p", "proto-vulcan", "--lib", "--no-default-features", "--features", "core"], "lib, feature core"),
-    "core-extras": (["-p", "proto-vulcan", "--lib", "--no-default-features", "--features", "core,extras"], "lib, features core+extras"),
-    "core-clpfd": (["-p", "proto-vulcan", "--lib", "--no-default-features", "--features", "core,clpfd"], "lib, features core+clpfd"),
-    "core-clpz": (["-p", "proto-vulcan", "--lib", "--no-default-features", "--features", "core,clpz"], "lib, features core+clpz"),
+    "core-extras-clpfd": (["-p", "proto-vulcan", "--lib", "--no-default-features", "--features", "core,extras,clpfd"], "lib, features core+extras+clpfd (the only proper feature subset that compiles on this tree)"),
 }
 
 
